@@ -51,7 +51,21 @@ def local_dict_stores(fn, b, pcs, name, _depth=0):
                     out.append((k[1], b.term(st.value, st), tuple(pcs.of(st)), st))
         elif isinstance(st, ast.Expr) and isinstance(st.value, ast.Call):
             f = st.value.func
-            if isinstance(f, ast.Attribute) and isinstance(f.value, ast.Name) and f.value.id == name and f.attr in ("update", "setdefault", "pop", "clear", "popitem"):
+            if isinstance(f, ast.Attribute) and isinstance(f.value, ast.Name) and f.value.id == name and f.attr == "update":
+                # d.update(k=v, ...) / d.update({"k": v}) are the stores d["k"] = v
+                call = st.value
+                ents = []
+                ok = len(call.args) <= 1 and all(k_.arg is not None for k_ in call.keywords)
+                if ok and call.args:
+                    de = dict_entries(b.term(call.args[0], st))
+                    ok = de is not None and all(k_[0] == "const" for k_, _v, _l in de)
+                    ents += [(k_[1], v_, tuple(l_)) for k_, v_, l_ in (de or [])]
+                if not ok:
+                    raise AnalysisError(f"{q}: {name}.update() with an argument that is not an enumerable dict")
+                ents += [(k_.arg, b.term(k_.value, st), ()) for k_ in call.keywords]
+                for k_, v_, l_ in ents:
+                    out.append((k_, v_, tuple(pcs.of(st)) + l_, st))
+            elif isinstance(f, ast.Attribute) and isinstance(f.value, ast.Name) and f.value.id == name and f.attr in ("setdefault", "pop", "clear", "popitem"):
                 raise AnalysisError(f"{q}: {name}.{f.attr}() is not modelled")
         elif isinstance(st, ast.Delete):
             for tg in st.targets:
